@@ -186,4 +186,107 @@ theorem setAllowed_eq_construct (s : State) (l : List Nat) :
 example : (run {} [.add ⟨0, [1,2], [3], 0⟩, .add ⟨1, [3], [4], 1⟩, .removeIdx 0]).reactants = [3] := by decide
 example : (run {} [.add ⟨0, [1,2], [3], 0⟩, .setAllowed [3,4], .add ⟨1, [3], [4], 1⟩]).held = [⟨1, [3], [4], 1⟩] := by decide
 
+/-! ### the `naunet extend` command -/
+
+theorem appendDepletion_inv (a : SpAttr) (key : Nat → Nat → Nat → Nat) (ty : Nat) (s : State) (h : Inv s) :
+    Inv (appendDepletion a key ty s) := foldl_add_inv _ s h
+
+theorem appendDesorption_inv (a : SpAttr) (key : Nat → Nat → Nat → Nat) (ty : Nat) (s : State) (h : Inv s) :
+    Inv (appendDesorption a key ty s) := foldl_add_inv _ s h
+
+theorem admits_nil (r : Reac) : admits [] r = true := by simp [admits]
+
+theorem filter_admits_nil (rs : List Reac) : rs.filter (admits []) = rs := by
+  apply List.filter_eq_self.mpr; intro r _; exact admits_nil r
+
+/-- which species are "present" for the command -/
+theorem mem_netSpecies (s : State) (h : Inv s) (x : Nat) : x ∈ netSpecies s ↔ ∃ r ∈ s.held, x ∈ r.species := by
+  obtain ⟨⟨h1, h2⟩, _, _⟩ := h
+  simp only [netSpecies, mem_unionSet, h1, h2, Reac.species, List.mem_append]
+  constructor
+  · rintro (⟨r, hr, hx⟩ | ⟨r, hr, hx⟩)
+    · exact ⟨r, hr, Or.inl hx⟩
+    · exact ⟨r, hr, Or.inr hx⟩
+  · rintro ⟨r, hr, hx | hx⟩
+    · exact Or.inl ⟨r, hr, hx⟩
+    · exact Or.inr ⟨r, hr, hx⟩
+
+/-- **C14 (desorption appended).** Without an allowed list, `--append-…-desorption` keeps every reaction and adds exactly one
+    reaction per surface species present, from that species to *its own* gas-phase species (same charge): nothing else. -/
+theorem appendDesorption_held (a : SpAttr) (key : Nat → Nat → Nat → Nat) (ty : Nat) (s : State) (hal : s.allowed = []) :
+    (appendDesorption a key ty s).held =
+      s.held ++ ((netSpecies s).filter a.surface).map fun x => single key ty x (a.gasOf x) := by
+  unfold appendDesorption
+  rw [(foldl_add_held _ s).1, hal, filter_admits_nil]
+
+theorem appendDepletion_held (a : SpAttr) (key : Nat → Nat → Nat → Nat) (ty : Nat) (s : State) (hal : s.allowed = []) :
+    (appendDepletion a key ty s).held =
+      s.held ++ ((netSpecies s).filter a.neutralGas).map fun x => single key ty x (a.iceOf x) := by
+  unfold appendDepletion
+  rw [(foldl_add_held _ s).1, hal, filter_admits_nil]
+
+/-- every reaction of the result is an old one or the desorption of a surface species that was present, to its gas-phase species;
+    and every such desorption is there -/
+theorem desorption_exact (a : SpAttr) (key : Nat → Nat → Nat → Nat) (ty : Nat) (s : State) (h : Inv s) (hal : s.allowed = [])
+    (r : Reac) :
+    r ∈ (appendDesorption a key ty s).held ↔
+      r ∈ s.held ∨ ∃ x, (∃ q ∈ s.held, x ∈ q.species) ∧ a.surface x = true ∧ r = single key ty x (a.gasOf x) := by
+  rw [appendDesorption_held a key ty s hal, List.mem_append, List.mem_map]
+  constructor
+  · rintro (h1 | ⟨x, hx, rfl⟩)
+    · exact Or.inl h1
+    · obtain ⟨hx1, hx2⟩ := List.mem_filter.mp hx
+      exact Or.inr ⟨x, (mem_netSpecies s h x).mp hx1, hx2, rfl⟩
+  · rintro (h1 | ⟨x, hx1, hx2, rfl⟩)
+    · exact Or.inl h1
+    · exact Or.inr ⟨x, List.mem_filter.mpr ⟨(mem_netSpecies s h x).mpr hx1, hx2⟩, rfl⟩
+
+theorem depletion_exact (a : SpAttr) (key : Nat → Nat → Nat → Nat) (ty : Nat) (s : State) (h : Inv s) (hal : s.allowed = [])
+    (r : Reac) :
+    r ∈ (appendDepletion a key ty s).held ↔
+      r ∈ s.held ∨ ∃ x, (∃ q ∈ s.held, x ∈ q.species) ∧ a.neutralGas x = true ∧ r = single key ty x (a.iceOf x) := by
+  rw [appendDepletion_held a key ty s hal, List.mem_append, List.mem_map]
+  constructor
+  · rintro (h1 | ⟨x, hx, rfl⟩)
+    · exact Or.inl h1
+    · obtain ⟨hx1, hx2⟩ := List.mem_filter.mp hx
+      exact Or.inr ⟨x, (mem_netSpecies s h x).mp hx1, hx2, rfl⟩
+  · rintro (h1 | ⟨x, hx1, hx2, rfl⟩)
+    · exact Or.inl h1
+    · exact Or.inr ⟨x, List.mem_filter.mpr ⟨(mem_netSpecies s h x).mpr hx1, hx2⟩, rfl⟩
+
+theorem foldl_desorb_inv (a : SpAttr) (key : Nat → Nat → Nat → Nat) (tys : List Nat) (s : State) (h : Inv s) :
+    Inv (tys.foldl (fun st ty => appendDesorption a key ty st) s) := by
+  induction tys generalizing s with
+  | nil => exact h
+  | cons t ts ih => exact ih _ (appendDesorption_inv a key t s h)
+
+/-- **C14 (the whole command).** Whatever options are combined, the network `naunet extend` writes is consistent: its species lists
+    are exactly the species of the reactions it holds. -/
+theorem extend_inv (a : SpAttr) (key : Nat → Nat → Nat → Nat) (o : ExtendOpts) (rs : List Reac) : Inv (extend a key o rs) := by
+  unfold extend
+  have h0 : Inv (rs.foldl add ({} : State)) := foldl_add_inv rs {} init_inv
+  have h1 : Inv (match o.keep with
+      | none => rs.foldl add ({} : State)
+      | some l => ((rs.foldl add ({} : State)).held.filter fun r => r.species.all (· ∈ l)).foldl add {}) := by
+    cases o.keep with
+    | none => exact h0
+    | some l => exact foldl_add_inv _ {} init_inv
+  simp only []
+  apply foldl_desorb_inv
+  split
+  · apply appendDepletion_inv
+    split
+    · exact step_inv _ _ (by split; exact h1; exact step_inv _ _ h1)
+    · split; exact h1; exact step_inv _ _ h1
+  · split
+    · exact step_inv _ _ (by split; exact h1; exact step_inv _ _ h1)
+    · split; exact h1; exact step_inv _ _ h1
+
+/-! non-vacuity: `#2 -> 2` style desorption of a charged ice keeps the charge (gasOf 12 = 11, not the neutral 10) -/
+example :
+    let a : SpAttr := ⟨fun x => x == 10, fun x => x == 12 || x == 13, fun x => x + 3, fun x => if x == 12 then 11 else 10⟩
+    ((extend a (fun _ _ _ => 0) ⟨none, [], false, false, [201]⟩ [⟨0, [12, 1], [13, 2], 5⟩]).held.map fun r => (r.re, r.pr)) =
+      [([12, 1], [13, 2]), ([12], [11]), ([13], [10])] := by decide
+
 end Naunet.C14
